@@ -61,6 +61,11 @@ func c01Witnesses() []witness {
 		{"swBreak", baseWitness([]*wstmt{{k: "switch", e: wLitI(0), cases: []wcase{
 			{sels: []uint32{5}, body: []*wstmt{}}, {deflt: true, body: []*wstmt{{k: "break"}}}}}}), inp()},
 		{"absU", baseWitness([]*wstmt{wStore(0, wCall(tU32, "abs", wInp(0)))}), inp(0x80000001)},
+		{"spill", baseWitness([]*wstmt{
+			{k: "let", name: "arr", ty: tArr(4, tU32), e: &wexpr{k: "cons", ty: tArr(4, tU32), args: []*wexpr{wInp(0), wInp(1), wInp(2), wInp(3)}}},
+			{k: "if", e: wBin(tBool, "==", wInp(4), wLitU(1)), body: []*wstmt{wStore(0, &wexpr{k: "idx", ty: tU32, args: []*wexpr{{k: "var", ty: tArr(4, tU32), name: "arr"}, wBin(tU32, "%", wInp(5), wLitU(4))}})}},
+			wStore(1, &wexpr{k: "idx", ty: tU32, args: []*wexpr{{k: "var", ty: tArr(4, tU32), name: "arr"}, wBin(tU32, "%", wInp(6), wLitU(4))}}),
+		}), inp(11, 12, 13, 14, 0, 1, 2)},
 		{"fordne", baseWitness([]*wstmt{wStore(0, sel(wBin(tBool, "!=", wBitcast(tF32, wInp(0)), wBitcast(tF32, wInp(1)))))}), inp(0x7fc00000, 0x3f800000)},
 	}
 }
@@ -75,7 +80,11 @@ func cmdC01Witness(c *ctx) {
 			c.line("cases.txt", line)
 		}
 		c.line("src.txt", q(w.m.wgsl()))
-		c.line("tags.txt", fmt.Sprintf("%s witness", w.knob))
+		shape := ""
+		if hasMultiSpill(w.m) {
+			shape = " spill2"
+		}
+		c.line("tags.txt", fmt.Sprintf("%s witness%s", w.knob, shape))
 	}
 }
 
